@@ -85,6 +85,8 @@ impl LangInterpreter for German {
                     }
                     Ok(())
                 }
+                // a compound word is a closed group: if it ends on a dangling conjunction it is not a number
+                Err(Error::Incomplete) => Err(Error::NaN),
                 Err(err) => Err(err),
             };
         }
